@@ -1,20 +1,67 @@
 """Per-property texts used in the evidence files (rules for counting cases, assumptions)."""
 
+_JOBGEN = ("one case = one (random program, input, layout, batch mode, delay policy) job of the real engine; distinct = "
+           "distinct hash of (program statements, input sizes, layout, batch mode, policy); non-trivial = the probes of the job saw more "
+           "than 10 elements. Programs are drawn from the operator algebra with a generator focus per property; every job is compared "
+           "probe by probe and sink by sink with the sequential reference.")
+
 RULES = {
+    "C01": _JOBGEN,
+    "C02": "one case = one job whose complete link log (send and receive hook events) was checked link by link; distinct = hash of (program or "
+           "payload-size set, layout, batch mode, policy); non-trivial = more than 20 elements crossed links. Sub-workloads: random programs with tiny "
+           "batches, payloads 0 B..1 MB on multiplexed connections, bursty producers against the batcher (emission order vs. order on the link).",
+    "C03": "one case = one pipeline with known connection kinds (chains of shuffle / group-by / broadcast / forward with replication changes, "
+           "joins, mixed group_by vs two-phase group_by joins, splits) executed with the link log; distinct = hash of (chains, shape, layout, batch); "
+           "non-trivial = at least one edge was checked.",
+    "C04": "one case = one job run under the watchdog: deadlock-prone shapes (random volume/batch/layout/policy) and random programs; distinct = "
+           "hash of (shape or program, volume, layout, batch); non-trivial = more than 200 input elements (shapes) / any random program. The pinned "
+           "input of finding F8 is tried a few times at the end of shard 0.",
+    "C05": _JOBGEN + " Half of the programs are loop-heavy.",
+    "C06": "one case = one scripted job (random valid timestamp/watermark script on 1-5 source replicas, random operator chain, layout, batch, "
+           "lock-step or free running, one in four inside a replay loop); distinct = hash of (script, operators, layout, batch); non-trivial = at least "
+           "one watermark was seen by the probes.",
+    "C07": _JOBGEN + " Plus scripted timestamped aggregations (every global and keyed form) whose result timestamp must be the maximum input timestamp.",
+    "C08": _JOBGEN,
+    "C09": _JOBGEN,
+    "C10": "one case = one replay/iterate job with the round-tag monitor (random body incl. shuffles, keyed sums, nested loops, side inputs on the "
+           "left, artificial work; random bound and stop condition; layout, batch, delay policy); distinct = hash of (loop case, layout, batch, policy); "
+           "non-trivial = at least 2 rounds expected on a non-empty input.",
+    "C11": "one case = one loop job with a side input combined by merge / join / zip (side on the right or on the left), with per-round comparison "
+           "at a probe right after the combination; distinct = hash of (case, layout, batch, policy); non-trivial = at least 2 rounds and a non-empty side input.",
     "C12": "direct: every (size, slide, exact, iteration lengths, timestamped) tuple is one case, "
            "enumerated exhaustively for 1<=slide<=size<=8, lengths 0..40 (1 iteration) and boundary "
            "lengths (2-3 iterations), plus seeded random tuples up to size 64; end-to-end: one case per "
            "(size, slide, exact, keys, input, aggregator, layout, batch mode). A case is non-trivial when "
            "at least one window is produced (direct) or at least two window results are expected (e2e); "
            "distinct = distinct hash of the tuple.",
+    "C13": "one case = one script driven through the real event-time or transaction window manager, or one end-to-end keyed job; distinct = hash "
+           "of (size, slide, script) / (script, layout); non-trivial = at least two window results (one commit for transactions).",
+    "C14": "one case = one wall-clock scenario (window kind, unit 0.3-6 ms direct / 2-17 ms end-to-end, random pauses around the unit, 1-3 "
+           "iterations) or one keyed job fed through a channel source; non-trivial = at least two window results.",
+    "C15": "one case = one (file content, layout) or (csv content, layout) job, one (integer type, start, end, peers) range split, one parallel "
+           "range job or one sequential-source job; distinct = hash of the tuple; non-trivial = at least two lines/records/elements (every range split).",
+    "C16": _JOBGEN + " Generator focus: sequential chains; plus scripted reorder() jobs (sortedness, completeness, release rule with in/out probes).",
+    "C17": "one case = one scripted job whose consumer replicas' observed arrivals were replayed through the reference frontier model; distinct = "
+           "hash of (script, layout, start kind, connection, batch); non-trivial = the frontier rose at least once.",
+    "C18": "one case = one latency scenario (pipeline depth 1-4, connection kinds, adaptive or fixed batching, batch size, max delay 2-50 ms, bursts "
+           "smaller than the batch, pauses, layout); every case is non-trivial; distinct = hash of the scenario.",
+    "C19": "one case = one (catalogue program, configuration) pair evaluated once per host_id, plus sampled real executions compared with the dump; "
+           "every case is non-trivial; distinct = hash of (program, layout).",
+    "C20": "one case = one crash point (program, layout, batch, operator, replica, element position) enumerated from the element counts of a clean run "
+           "and executed with the fault injector; every executed crash point is non-trivial; distinct = hash of the tuple.",
 }
 
 ASSUMPTIONS = {
     "C12": ["the window manager is driven through its public process() API exactly as WindowOperator does",
             "end-to-end pipelines use one producer so that per-key arrival order is determined by the input"],
+    "C04": ["a wall-clock cap without a quiescence certificate is reported as inconclusive, never as a violation"],
+    "C18": ["the verdict bound is 2 s + 100 x depth x max_delay; observed latencies are reported separately"],
+    "C06": ["scripts respect the watermark contract per source replica by construction"],
+    "C17": ["frontier increases caused by the end of a replica are the open known finding F2"],
 }
 
 EXHAUSTIVE = {
     "C12": "count-window manager: all 1<=slide<=size<=8, exact and non-exact, every length 0..40 for one "
            "iteration and all boundary-length combinations for 2 and 3 iterations",
+    "C19": "configuration grid: local 1..8 and every ordered choice of cores {1,2,3,5,8} for 1, 2 and 3 hosts, for every catalogue program",
 }
